@@ -3,7 +3,8 @@
    x_while_do, x_do_while, x_catch_handler; x_concat_lazy, x_catch_lazy, x_oern_f for
    lazy iterables / for_in / factory arguments), run by the runner of Ops/Multi.v. *)
 From RxVerif Require Import Base.Prelude Ops.Machine Ops.Multi Ops.MultiFacts Ops.RunLemmas
-  Ops.Combinators Ops.SequentialFacts Ops.CatchFacts Ops.RepeatFacts Ops.LazySeqFacts.
+  Ops.Combinators Ops.SequentialFacts Ops.CatchFacts Ops.RepeatFacts Ops.LazySeqFacts
+  Ops.SequentialMore.
 
 (* for EVERY input sequence (arbitrary interleaving of all sources, conforming
    or not), at every moment at most one source is subscribed *)
@@ -176,4 +177,99 @@ Proof. vm_compute. reflexivity. Qed.
 Example C10_witness_oern_factory :
   fst (run (x_oern_f (A:=Z) 2 (fun _ => true)) [(0, ISrc 0%nat (Err 12))])
   = [(0%nat, OEffect 0); (0%nat, OSub 0%nat); (1%nat, OEffect 1012); (1%nat, OSub 1%nat); (1%nat, OUnsub 0%nat)].
+Proof. vm_compute. reflexivity. Qed.
+
+(* ---- one source at a time for EVERY sequential operator ---------------------- *)
+(* for EVERY input sequence (arbitrary interleaving of all sources, conforming or
+   not; every prefix is an input sequence too, so: after every input) at most one
+   source subscription is live under catch, on_error_resume_next, retry, repeat,
+   while_do, do_while and catch(handler).  Inside the handler of the termination
+   that makes the operator move on, the next subscription is opened BEFORE the
+   terminated one is detached (retry/repeat: source 0 twice), as in the
+   implementation; the statement is about the state between two inputs. *)
+Theorem C10_all_one_source_at_a_time : forall A,
+  (forall n (ins : list (Z * inp A)), (length (r_live (snd (run (x_catch n) ins))) <= 1)%nat) /\
+  (forall n (ins : list (Z * inp A)), (length (r_live (snd (run (x_oern n) ins))) <= 1)%nat) /\
+  (forall c (ins : list (Z * inp A)), (length (r_live (snd (run (x_retry c) ins))) <= 1)%nat) /\
+  (forall c (ins : list (Z * inp A)), (length (r_live (snd (run (x_repeat c) ins))) <= 1)%nat) /\
+  (forall cond (ins : list (Z * inp A)), (length (r_live (snd (run (x_while_do cond) ins))) <= 1)%nat) /\
+  (forall cond (ins : list (Z * inp A)), (length (r_live (snd (run (x_do_while cond) ins))) <= 1)%nat) /\
+  (forall h (ins : list (Z * inp A)), (length (r_live (snd (run (x_catch_handler h) ins))) <= 1)%nat).
+Proof. exact @all_one_source_at_a_time. Qed.
+Print Assumptions C10_all_one_source_at_a_time.
+
+(* the generic form: ANY machine whose handlers answer with nothing, one element, or
+   -- only for a source's terminal notification -- one subscription *)
+Theorem C10_sequential_one_source_at_a_time : forall A B (m : machine A B), sequential m ->
+  forall ins : list (Z * inp A), (length (r_live (snd (run m ins))) <= 1)%nat.
+Proof. exact @sequential_one_at_a_time. Qed.
+Print Assumptions C10_sequential_one_source_at_a_time.
+
+(* ---- repeat(n) subscribes EXACTLY n times ------------------------------------ *)
+(* over runs of the source that all complete: one subscription at subscribe() and one
+   more at each completion while the count allows *)
+Theorem C10_repeat_subscription_count : forall A (n : nat) (runs : list (list A)),
+  count_subs (map snd (fst (run (x_repeat (Some n)) (runs_env (map (fun xs => (xs, TDone)) runs)))))
+  = Nat.min n (S (length runs)).
+Proof. exact @repeat_subscription_count. Qed.
+Print Assumptions C10_repeat_subscription_count.
+Theorem C10_repeat_subscribes_exactly_n : forall A (n : nat) (runs : list (list A)),
+  (0 < n)%nat -> (n <= length runs)%nat ->
+  count_subs (map snd (fst (run (x_repeat (Some n)) (runs_env (map (fun xs => (xs, TDone)) runs))))) = n.
+Proof. exact @repeat_subscribes_exactly_n. Qed.
+Print Assumptions C10_repeat_subscribes_exactly_n.
+Example C10_witness_repeat_exactly_n_hyps :
+  (0 < 2)%nat /\ (2 <= length [[1]; [2; 3]; [4]])%nat /\
+  fst (run (x_repeat (Some 2%nat)) (runs_env (map (fun xs => (xs, TDone)) [[1]; [2; 3]; [4]])))
+  = [(0%nat, OSub 0%nat); (1%nat, OEmit (Next 1)); (2%nat, OSub 0%nat); (2%nat, OUnsub 0%nat);
+     (3%nat, OEmit (Next 2)); (4%nat, OEmit (Next 3)); (5%nat, OUnsub 0%nat); (5%nat, OEmit Done)].
+Proof. vm_compute. repeat split; repeat constructor. Qed.
+
+(* ---- while_do / do_while: closed forms (sequential environment) --------------- *)
+(* over the successive runs of the source: every run's elements; after a completed run
+   the condition is evaluated (the j-th evaluation): true = the next run, false =
+   completion, raising = that error; an error of the source is passed on.  while_do
+   evaluates the condition before the first subscription, do_while after the first run. *)
+Theorem C10_while_do_closed_form : forall A cond (runs : list (list A * term)),
+  emitted (fst (run (x_while_do cond) (runs_env runs)))
+  = match cond 0%nat with
+    | Ok true => while_spec cond 1%nat runs
+    | Ok false => [Done]
+    | Raise e => [Err e]
+    end.
+Proof. exact @while_do_closed_form. Qed.
+Print Assumptions C10_while_do_closed_form.
+Theorem C10_do_while_closed_form : forall A cond (runs : list (list A * term)),
+  emitted (fst (run (x_do_while cond) (runs_env runs))) = while_spec cond 0%nat runs.
+Proof. exact @do_while_closed_form. Qed.
+Print Assumptions C10_do_while_closed_form.
+
+(* condition true n times, then false, all runs completing: while_do emits exactly the
+   first n runs and completes, do_while exactly the first n+1 runs *)
+Theorem C10_while_do_n_completing : forall A cond (n : nat) (runs : list (list A)),
+  (forall k, (k < n)%nat -> cond k = Ok true) -> cond n = Ok false -> (n <= length runs)%nat ->
+  emitted (fst (run (x_while_do cond) (runs_env (map (fun xs => (xs, TDone)) runs))))
+  = map Next (concat (firstn n runs)) ++ [Done].
+Proof. exact @while_do_n_completing. Qed.
+Print Assumptions C10_while_do_n_completing.
+Theorem C10_do_while_n_completing : forall A cond (n : nat) (runs : list (list A)),
+  (forall k, (k < n)%nat -> cond k = Ok true) -> cond n = Ok false -> (n < length runs)%nat ->
+  emitted (fst (run (x_do_while cond) (runs_env (map (fun xs => (xs, TDone)) runs))))
+  = map Next (concat (firstn (S n) runs)) ++ [Done].
+Proof. exact @do_while_n_completing. Qed.
+Print Assumptions C10_do_while_n_completing.
+
+Example C10_witness_while_do :
+  let cond := fun j => if Nat.ltb j 2 then Ok true else Ok false in
+  (forall k, (k < 2)%nat -> cond k = Ok true) /\ cond 2%nat = Ok false /\
+  emitted (fst (run (x_while_do cond) (runs_env [([1], TDone); ([2; 3], TDone); ([4], TDone)])))
+  = [Next 1; Next 2; Next 3; Done].
+Proof.
+  cbn zeta. split; [|split; vm_compute; reflexivity].
+  intros [|[|k]] Hk; [reflexivity|reflexivity|lia].
+Qed.
+Example C10_witness_do_while_condition_raises :
+  emitted (fst (run (x_do_while (fun j => match j with O => Ok true | _ => Raise 9 end))
+                  (runs_env [([1], TDone); ([2], TDone); ([3], TDone)])))
+  = [Next 1; Next 2; Err 9].
 Proof. vm_compute. reflexivity. Qed.
